@@ -409,7 +409,8 @@ def make_Triangle(obj, **kwargs) -> Union[Dict[str, Any], List[Dict[str, Any]]]:
             else obj.magnetization
         )
         if np.all(np.cross(magnetization, vec) == 0):
-            epsilon = 1e-3 * vec
+            # thickness proportional to the size of the triangle (vec grows with its area)
+            epsilon = 1e-3 * vec / np.sqrt(np.linalg.norm(vec))
             vert = np.concatenate([vert - epsilon, vert + epsilon])
             side_faces = [
                 [0, 1, 3],
